@@ -616,6 +616,9 @@ pub fn execute(case: &Case, record_seed: Option<u64>) -> Outcome {
         (l.delivered.clone(), l.hard_error, l.early_eof, l.fp.0, l.calls)
     });
     let calls: Vec<TrapCall> = TRAP_LOG.with(|l| l.borrow().clone());
+    if std::env::var_os("SIM_DEBUG").is_some() {
+        eprintln!("trap calls: {calls:?}");
+    }
     if decode_ticks > 1 {
         probe(Probe::DecodeMultiIter);
     }
